@@ -45,6 +45,9 @@ def gen_outcome(rng, W, benign=False):
         if not benign:
             pool += REASONS
         seq = [rng.choice(pool) for _ in range(k - 1)] + [rng.choice(['Success'] * 4 + d['shutdown_on'] + ([] if benign else ['KnownIssue', 'UnknownIssue']))]
+        if not benign and rng.random() < 0.06:
+            # the scheduler refuses the submission several times in a row (at most five re-submissions are allowed)
+            seq = ['SubmissionFailed'] * rng.randint(4, 7) + seq[-1:]
         out[c] = seq
     return out
 
@@ -55,20 +58,22 @@ def obs_tuple(o):
     return (comps, o['done'], o['stop'], o['pmq'], o['finq'], o['running'], v, o['cur'] + 1)
 
 
-def explore(W, outcome, chooser, maxlen=400, slow_pm=False, sleepy=False):
+def explore(W, outcome, chooser, maxlen=400, slow_pm=False, sleepy=False, start_at=0):
     """Runs one schedule to completion. chooser(enabled_events, step) -> index. Returns
     (trace [(event, obs_before, obs_after)], driver_errors, complete?)"""
     import sched_driver as S
     d = S.Driver(W, outcome)
     d.slow_pm = slow_pm
     d.sleepy = sleepy
+    d.cur = start_at - 1        # start_at > 0: the experiment is restarted from that stage (earlier stages are skipped)
+    first = True
     trace = []
     pre = d.observe()
     step = 0
     complete = False
     while step < maxlen:
         en = d.enabled()
-        can_start = (not d.stage_running()) and (d.cur == -1 or d.verdict == 'ok') and d.cur + 1 < d.nstages
+        can_start = (not d.stage_running()) and (first or d.verdict == 'ok') and d.cur + 1 < d.nstages
         if can_start:
             en = en + [('Start',)]
         if not en:
@@ -78,6 +83,7 @@ def explore(W, outcome, chooser, maxlen=400, slow_pm=False, sleepy=False):
         try:
             if ev[0] == 'Start':
                 d.start_stage()
+                first = False
             elif ev[0] == 'PMB':
                 # a post-mortem that parks inside its stability wait changes nothing observable yet: for the model the
                 # whole post-mortem happens when it is released (PME -> PM); one that completes at once is a plain PM
